@@ -7,14 +7,13 @@
     values per key and the series sets of every measurement / tag key / tag value equal those of
     the live series (series created and not dropped).
 
-    The faithful model REFUTES three clauses of it, and so does the real index (known findings,
+    The faithful model REFUTES three clauses of it (a fourth, the stale Partition.seriesIDSet after
+    Index.DropMeasurement, was repaired in partition.go; see C14_measurement_names_after_drop_measurement), and so does the real index (known findings,
     replayed by the driver on every run):
       - tag values (and keys) stay listed after all their series were dropped   [..._values_refuted]
       - keys/values of a dropped measurement survive in older index files and are listed again
         when the measurement is re-created; the answer depends on the compaction schedule
                                                                                 [..._keys_refuted]
-      - Index.DropMeasurement leaves Partition.seriesIDSet stale; the measurement is then not
-        dropped with its last series and stays listed                          [..._names_refuted]
       - a series dropped from the index whose id the series file keeps (another shard has it)
         stays in the measurement / tag-key series sets while an older file holds it [..._kept_id_refuted]
     PROVED (unbounded: all file contents, all states, all schedules):
@@ -139,13 +138,13 @@ Theorem C14_answers_depend_on_schedule_refuted :
 Proof. exists hist_keys. exact schedule_dependence. Qed.
 Print Assumptions C14_answers_depend_on_schedule_refuted.
 
-Theorem C14_index_refines_live_series_names_refuted :
-  exists parts maxlog ops,
-    let st := run_hist parts maxlog ops in let sp := spec_hist ops in
-    refines_live st sp = false /\
-    str_mem m0 (i_meas st) = true /\ spec_meas sp true = [] /\ i_mseries st m0 = [].
-Proof. exists 1%nat, 5, hist_meas. exact measurement_names_refuted. Qed.
-Print Assumptions C14_index_refines_live_series_names_refuted.
+(** Former refutation (Index.DropMeasurement left Partition.seriesIDSet stale), repaired in
+    partition.go: on the same history the measurement is now dropped with its last series. *)
+Example C14_measurement_names_after_drop_measurement :
+  let st := run_hist 1 5 hist_meas in let sp := spec_hist hist_meas in
+  i_meas st = [] /\ spec_meas sp true = [] /\ i_mseries st m0 = [] /\ i_set st = [] /\
+  i_set (run_hist 1 5 (firstn 3 hist_meas)) = [].
+Proof. exact measurement_names_after_drop_measurement. Qed.
 
 Theorem C14_index_refines_live_series_kept_id_refuted :
   exists parts maxlog ops,
